@@ -18,3 +18,230 @@ def gen(name):
 def run(name, wd):
     facts, functions, prelude = GENERATORS[name]()
     return vunit.run_rows_unit(name, wd, facts, prelude=prelude, functions=functions)
+
+
+def _read(rel):
+    with open(os.path.join(REPO, rel)) as f:
+        return f.read()
+
+
+def _strip_comments(s):
+    return re.sub(r'//[^\n]*', '', s)
+
+
+def _array(src, name, allow_static=True):
+    """Return (declared_len_text, body_text) of `const|static NAME: [T; N] = [ ... ];` (first cfg variant whose
+    element type is u64/u8/(u64, u64)/i32 -- 32-bit-limb variants are skipped)."""
+    for m in re.finditer(r'(?:pub\s+)?(?:const|static)\s+%s\s*:\s*\[\s*([^;\]]+?)\s*;\s*([^\]]+?)\s*\]\s*=\s*\[(.*?)\];' % re.escape(name), src, re.S):
+        ty = m.group(1).strip()
+        if ty == 'u32' and name.startswith('LARGE_POW'):
+            continue
+        return ty, m.group(2).strip(), m.group(3)
+    return None
+
+
+TBL_PRELUDE = """
+pub open spec fn dch(d: nat) -> u8 { if d < 10 { (48 + d) as u8 } else { (55 + d) as u8 } }
+pub open spec fn tbl_rng(s: Seq<u8>, r: nat, lo: nat, hi: nat) -> bool decreases hi - lo {
+  if lo >= hi { true } else if lo + 1 == hi { s[(2*lo) as int] == dch(lo / r) && s[(2*lo+1) as int] == dch(lo % r) }
+  else { let mid = (lo + (hi - lo) / 2) as nat; tbl_rng(s, r, lo, mid) && tbl_rng(s, r, mid, hi) }
+}
+pub open spec fn seq_pows(s: Seq<u64>, r: nat, lo: nat, hi: nat) -> bool decreases hi - lo {
+  if lo >= hi { true } else if lo + 1 == hi { s[lo as int] as nat == pw(r, lo) }
+  else { let mid = (lo + (hi - lo) / 2) as nat; seq_pows(s, r, lo, mid) && seq_pows(s, r, mid, hi) }
+}
+pub open spec fn limbs_val(s: Seq<u64>, i: nat) -> nat decreases s.len() - i {
+  if i >= s.len() { 0 } else { s[i as int] as nat + 0x1_0000_0000_0000_0000 * limbs_val(s, i + 1) }
+}
+"""
+
+
+@gen("wi-digit-tables")
+def wi_digit_tables():
+    """DIGIT_TO_BASE{r}_SQUARED[2k], [2k+1] == digit chars of k / r, k % r, for every k < r^2, every radix."""
+    facts = []
+    for rel in ("lexical-write-integer/src/table_decimal.rs", "lexical-write-integer/src/table_binary.rs",
+                "lexical-write-integer/src/table_radix.rs"):
+        src = _read(rel)
+        for m in re.finditer(r'pub const DIGIT_TO_BASE(\d+)_SQUARED: \[u8; (\d+)\] = \[(.*?)\];', src, re.S):
+            r = int(m.group(1))
+            body = _strip_comments(m.group(3)).strip()
+            facts.append(("DIGIT_TO_BASE%d_SQUARED" % r,
+                          "({ let s = seq![%s]; s.len() == %s && s.len() == 2 * %d * %d && tbl_rng(s, %d, 0, %d) })"
+                          % (body, m.group(2), r, r, r, r * r),
+                          "%s: %s... (%s entries)" % (rel, body[:60].replace("\n", " "), m.group(2))))
+    fns = ["lexical-write-integer::table_decimal/table_binary/table_radix::DIGIT_TO_BASE{2..36}_SQUARED"]
+    return facts, fns, TBL_PRELUDE
+
+
+@gen("util-step")
+def util_step():
+    """min_step_N(bits, signed) = k  ==>  N^k <= 2^(bits - signed)   (all values in [0, N^k) fit);
+    and the u128_divrem_N divisor literal equals N^u64_step(N) (digits-per-chunk consistency)."""
+    src = _read("lexical-util/src/step.rs")
+    div = _read("lexical-util/src/div128.rs")
+    facts = []
+    k64 = {}
+    for m in re.finditer(r'const fn min_step_(\d+)\(bits: usize, is_signed: bool\) -> usize \{\s*match bits \{(.*?)\n    \}', src, re.S):
+        r = int(m.group(1))
+        for a in re.finditer(r'(\d+) if (!?)is_signed => (\d+),', m.group(2)):
+            bits, neg, k = int(a.group(1)), a.group(2), int(a.group(3))
+            e = bits if neg == '!' else bits - 1
+            if bits == 64 and neg == '!':
+                k64[r] = k
+            facts.append(("min_step_%d[%d,%s]" % (r, bits, "unsigned" if neg else "signed"),
+                          "pw(%d, %d) <= pw(2, %d)" % (r, k, e), a.group(0).strip()))
+    for m in re.finditer(r'fn u128_divrem_(\d+)\(n: u128\) -> \(u128, u64\) \{\s*(\w+)\(([^)]*)\)\s*\}', div):
+        r = int(m.group(1))
+        args = [a.strip() for a in m.group(3).replace("\n", " ").split(",") if a.strip()]
+        if r not in k64:
+            continue
+        if m.group(2) == "pow2_u128_divrem":
+            facts.append(("u128_divrem_%d::mask/shr == radix^u64_step" % r,
+                          "pw(2, %s) == pw(%d, %d) && %snat == pw(2, %s) - 1" % (args[2], r, k64[r], args[1], args[2]),
+                          m.group(0).replace("\n", " ")[:160]))
+        else:
+            facts.append(("u128_divrem_%d::divisor == radix^u64_step" % r,
+                          "%snat == pw(%d, %d)" % (args[1], r, k64[r]), m.group(0).replace("\n", " ")[:160]))
+            if m.group(2) == "slow_u128_divrem":
+                # d_ctlz literal is the number of leading zeros of d
+                facts.append(("u128_divrem_%d::d_ctlz" % r,
+                              "pw(2, %d) <= %snat && %snat < pw(2, %d)" % (63 - int(args[2]), args[1], args[1], 64 - int(args[2])),
+                              m.group(0).replace("\n", " ")[:160]))
+    return facts, ["lexical-util::step::min_step_{2..36}", "lexical-util::step::u64_step",
+                   "lexical-util::div128::u128_divrem_{2..36} (constants)"], ""
+
+
+def _match_arms(src, fname, cfg_radix=True):
+    """arms of the `#[cfg(feature = "radix")]` variant of `pub const fn fname(radix: u32)`"""
+    ms = list(re.finditer(r'((?:#\[[^\]]*\]\s*)*)pub const fn %s\(radix: u32\) -> [^{]+\{\s*match radix \{(.*?)\n    \}' % fname, src, re.S))
+    out = []
+    for m in ms:
+        attrs = m.group(1)
+        if 'feature = "radix"' in attrs and 'not(feature = "radix")' not in attrs:
+            variant = "radix"
+        elif 'power-of-two' in attrs and 'not(feature = "power-of-two")' not in attrs.replace('all(feature = "power-of-two", not(feature = "radix"))', ''):
+            variant = "pow2"
+        elif 'all(feature = "power-of-two"' in attrs:
+            variant = "pow2"
+        else:
+            variant = "default"
+        arms = re.findall(r'\n\s*(\d+) => ([^,\n]+(?:, -?\d+\))?),', m.group(2))
+        out.append((variant, arms))
+    return out
+
+
+def _odd_part(r):
+    while r % 2 == 0:
+        r //= 2
+    return r
+
+
+def _is_pow2(r):
+    return r & (r - 1) == 0
+
+
+@gen("pf-limits")
+def pf_limits():
+    """Clinger fast-path limits (safety direction only: what exactness needs, not maximality)."""
+    src = _read("lexical-parse-float/src/limits.rs")
+    facts = []
+    for ty, p, maxe in (("f32", 24, 127), ("f64", 53, 1023)):
+        for variant, arms in _match_arms(src, "%s_exponent_limit" % ty):
+            for r, val in arms:
+                r = int(r)
+                m = re.match(r'\((-?\d+), (-?\d+)\)', val.strip())
+                lo, hi = int(m.group(1)), int(m.group(2))
+                name = "%s_exponent_limit[%s](%d)" % (ty, variant, r)
+                if _is_pow2(r):
+                    lg = r.bit_length() - 1
+                    # r^hi = 2^(lg*hi) must be a finite normal power of two, r^lo a normal one
+                    facts.append((name, "%d * %d <= %d && %d <= %d && %d <= 0" % (lg, hi, maxe, -lo, hi, lo),
+                                  "%d => %s" % (r, val)))
+                else:
+                    # odd(r)^hi exactly representable: < 2^p ; symmetric lower bound
+                    facts.append((name, "pw(%d, %d) <= pw(2, %d) && %d == -%d" % (_odd_part(r), hi, p, lo, hi) if lo == -hi else "false",
+                                  "%d => %s" % (r, val)))
+        for variant, arms in _match_arms(src, "%s_mantissa_limit" % ty):
+            for r, val in arms:
+                r = int(r)
+                k = int(val)
+                facts.append(("%s_mantissa_limit[%s](%d)" % (ty, variant, r), "pw(%d, %d) <= pw(2, %d)" % (r, k, p),
+                              "%d => %s" % (r, val)))
+    for bits in (32, 64):
+        for variant, arms in _match_arms(src, "u%d_power_limit" % bits):
+            for r, val in arms:
+                r = int(r)
+                k = int(val)
+                facts.append(("u%d_power_limit[%s](%d)" % (bits, variant, r), "pw(%d, %d) <= pw(2, %d) - 1" % (r, k, bits),
+                              "%d => %s" % (r, val)))
+    return facts, ["lexical-parse-float::limits::{f32,f64}_exponent_limit", "lexical-parse-float::limits::{f32,f64}_mantissa_limit",
+                   "lexical-parse-float::limits::{u32,u64}_power_limit"], ""
+
+
+@gen("pf-lemire-table")
+def pf_lemire():
+    """POWER_OF_FIVE_128[q - SMALLEST] equals the Eisel-Lemire 128-bit truncated power of five (etc/lemire_table.py)."""
+    src = _read("lexical-parse-float/src/table_lemire.rs")
+    smallest = int(re.search(r'pub const SMALLEST_POWER_OF_FIVE: i32 = (-?\d+);', src).group(1))
+    largest = int(re.search(r'pub const LARGEST_POWER_OF_FIVE: i32 = (-?\d+);', src).group(1))
+    m = re.search(r'pub static POWER_OF_FIVE_128: \[\(u64, u64\); N_POWERS_OF_FIVE\] = \[(.*?)\n\];', src, re.S)
+    rows = re.findall(r'\(\s*(0x[0-9a-fA-F_]+)\s*,\s*(0x[0-9a-fA-F_]+)\s*\)\s*,', _strip_comments(m.group(1)))
+    facts = [("POWER_OF_FIVE_128::len", "%d == %d - (%d) + 1 && %d == -342 && %d == 308" % (len(rows), largest, smallest, smallest, largest),
+              "SMALLEST=%d LARGEST=%d rows=%d" % (smallest, largest, len(rows)))]
+    for i, (hi, lo) in enumerate(rows):
+        q = smallest + i
+        T = "mk(%s, %s)" % (hi, lo)
+        rng = "pw(2, 127) <= %s && %s < pw(2, 128)" % (T, T)
+        if q >= 0:
+            p5 = 5 ** q
+            s = 127 - (p5.bit_length() - 1)
+            if s >= 0:
+                fact = "%s && %s == pw(5, %d) * pw(2, %d)" % (rng, T, q, s)
+            else:
+                fact = "%s && %s == pw(5, %d) / pw(2, %d)" % (rng, T, q, -s)
+        else:
+            n = -q
+            p5 = 5 ** n
+            z = (p5 - 1).bit_length()  # smallest z with 2^z >= 5^n
+            if q >= -27:
+                b = z + 127
+                fact = "%s && pw(2, %d) >= pw(5, %d) && pw(2, %d) < pw(5, %d) && %s == pw(2, %d) / pw(5, %d) + 1" % (
+                    rng, z, n, z - 1, n, T, b, n)
+            else:
+                b = 2 * z + 128
+                c = 2 ** b // p5 + 1
+                t = max(0, c.bit_length() - 128)
+                fact = "%s && pw(2, %d) >= pw(5, %d) && pw(2, %d) < pw(5, %d) && %s == (pw(2, %d) / pw(5, %d) + 1) / pw(2, %d)" % (
+                    rng, z, n, z - 1, n, T, b, n, t)
+        facts.append(("POWER_OF_FIVE_128[%d] (5^%d)" % (i, q), fact, "(%s, %s), // 5^%d" % (hi, lo, q)))
+    return facts, ["lexical-parse-float::table_lemire::POWER_OF_FIVE_128 (all rows)"], ""
+
+
+def _int_list(body):
+    return [x.strip() for x in _strip_comments(body).replace("\n", " ").split(",") if x.strip()]
+
+
+@gen("pf-int-powers")
+def pf_int_powers():
+    """SMALL_INT_POW{r}[i] == r^i for every i; LARGE_POW{r} limbs == r^LARGE_POW{r}_STEP (64-bit limbs)."""
+    facts = []
+    for rel in ("lexical-parse-float/src/table_decimal.rs", "lexical-parse-float/src/table_binary.rs",
+                "lexical-parse-float/src/table_radix.rs"):
+        src = _read(rel)
+        for m in re.finditer(r'pub const SMALL_INT_POW(\d+): \[u64; (\d+)\] = \[(.*?)\];', src, re.S):
+            r = int(m.group(1))
+            items = _int_list(m.group(3))
+            facts.append(("SMALL_INT_POW%d" % r,
+                          "({ let s = seq![%s]; s.len() == %s && seq_pows(s, %d, 0, %d) })" % (
+                              ", ".join(i + "u64" for i in items), m.group(2), r, len(items)),
+                          "%s: [%s, ...] (%d entries)" % (rel, ", ".join(items[:4]), len(items))))
+        for m in re.finditer(r'pub const LARGE_POW(\d+): \[u64; (\d+)\] = \[(.*?)\];', src, re.S):
+            r = int(m.group(1))
+            items = _int_list(m.group(3))
+            st = re.search(r'pub const LARGE_POW%d_STEP: u32 = (\d+);' % r, src)
+            facts.append(("LARGE_POW%d" % r,
+                          "({ let s = seq![%s]; s.len() == %s && limbs_val(s, 0) == pw(%d, %s) })" % (
+                              ", ".join(i + "u64" for i in items), m.group(2), r, st.group(1)),
+                          "%s: LARGE_POW%d_STEP = %s, limbs [%s, ...]" % (rel, r, st.group(1), items[0])))
+    return facts, ["lexical-parse-float::table_{decimal,binary,radix}::SMALL_INT_POW*", "…::LARGE_POW* / LARGE_POW*_STEP"], TBL_PRELUDE
